@@ -279,11 +279,15 @@ def model_batch(part, cases, obs, work, tag='corr'):
 def model_show(part, case, obs, work):
     if not part.CORR_SHOW:
         return None
+    try:
+        lit = part.coq_case(case, obs)
+    except Exception as e:
+        return 'the implementation observation has no Coq rendering (%s: %s)' % (type(e).__name__, e)
     p = os.path.join(work, 'show_%s.v' % part.NAME)
     with open(p, 'w') as f:
         f.write('From Coq Require Import List ZArith NArith QArith Bool.\nImport ListNotations.\n')
         f.write('From DV Require Import Common.Res Common.CorrBase.\n' + part.CORR_REQUIRE + '\n')
-        f.write('Eval vm_compute in (%s (%s)).\n' % (part.CORR_SHOW, part.coq_case(case, obs)))
+        f.write('Eval vm_compute in (%s (%s)).\n' % (part.CORR_SHOW, lit))
     rc, out = coqc(p, 300)
     return out.strip()[-3000:]
 
